@@ -14,7 +14,11 @@ import BroodModel.Query
 import BroodModel.Spec
 import BroodModel.Serde
 import BroodModel.Sched
+import BroodModel.SchedSpec
 import BroodModel.Generated.Tables
+import BroodModel.Ctor
+import BroodModel.Programs
+import BroodModel.Fault
 
 open Brood
 
@@ -298,6 +302,21 @@ def runOp (st : St) (wi : Nat) (name : String) (args : List String) : St × Stri
             (st.setW wi (some w'), s!"ok n={rows.length} rows={rowsS} drops={dropsStr k drops}")
           | none => (st, s!"ok n={rows.length} rows={rowsS} drops=")
     | _, _ => bad
+  | "parq", [viewsS, filterS, _threads, _mode, eS] =>
+    -- same answer as the sequential query: the parallel iterator must present the same multiset
+    match parseViews viewsS, parseFilter filterS with
+    | some vs, some f =>
+      withW fun w =>
+        match w.query vs f with
+        | .ub e => (st, ubStr e)
+        | .ok rows =>
+          let rowsS := String.intercalate "," (sortStrings (rows.map (rowStr k)))
+          match eS.toNat? with
+          | some e =>
+            let (w', drops) := w.queryWrite vs f e
+            (st.setW wi (some w'), s!"ok n={rows.length} rows={rowsS} drops={dropsStr k drops}")
+          | none => (st, s!"ok n={rows.length} rows={rowsS} drops=")
+    | _, _ => bad
   | "entryq", [idS, viewsS, filterS] =>
     match parseIdent idS, parseViews viewsS, parseFilter filterS with
     | some id, some vs, some f =>
@@ -485,6 +504,30 @@ def specOnResult (st : St) (toks : List String) : St × List String :=
         let outs := asym ++ refl ++ unsound
         ({ st with oracleFails := st.oracleFails + outs.length }, outs)
       | none => (st, [])
+    | "sched", [descS, _e, _scripts] =>
+      -- oracles on the *real* static grouping, by the specification of conflict (not by the stager model)
+      match (descS.splitOn "|").mapM parseTask with
+      | none => (st, [])
+      | some tasks =>
+        let groupsS := (fieldOf toks "stages").getD "-"
+        let groups : List (List Nat) := if groupsS == "-" then [] else
+          (groupsS.splitOn "/").map (fun g => (g.splitOn ".").filterMap String.toNat?)
+        let tg := groups.map (fun g => g.filterMap (fun i => tasks[i]?))
+        -- C08: a task grouped with an earlier task of the same group it conflicts with
+        let bad8 := tg.any (fun g => (List.range g.length).any (fun i =>
+          match g[i]? with
+          | some t => stageConflict (g.take i) t
+          | none => false))
+        -- C12: a boundary that no conflict justifies
+        let rec unjust : List (List Task) → Bool
+          | g1 :: g2 :: rest => (match g2.head? with | some t => !stageConflict g1 t | none => false) || unjust (g2 :: rest)
+          | _ => false
+        let bad12 := unjust tg
+        let lost := groups.flatten.length != tasks.length
+        let o := (if bad8 then [xline st "stages" s!"conflicting tasks share a stage: schedule={descS} real-stages={groupsS}"] else []) ++
+                 (if bad12 then [xline st "stages" s!"serialised without conflict: a stage boundary is not justified by any conflict: schedule={descS} real-stages={groupsS}"] else []) ++
+                 (if lost then [xline st "stages" s!"tasks lost or duplicated by staging: schedule={descS} real-stages={groupsS}"] else [])
+        ({ st with oracleFails := st.oracleFails + o.length }, o)
     | "res", ["set", pS, vS] =>
       match st.getS wi, pS.toNat?, vS.toNat? with
       | some s, some p, some v =>
@@ -531,6 +574,23 @@ def specOnResult (st : St) (toks : List String) : St × List String :=
           (st.setS wi ((st.getS src).map (fun s => s.copy e)), o)
         else (st, [])
       | _, _ => (st, [])
+    | "parq", [viewsS, filterS, _t, _mode, eS] =>
+      match st.getS wi, parseViews viewsS, parseFilter filterS with
+      | some s, some vs, some f =>
+        let rows := Spec.query st.n s vs f
+        let want := String.intercalate "," (sortStrings (rows.map (rowStr k)))
+        let (st, o1) :=
+          if fieldOf toks "rows" == some want && fieldOf toks "n" == some (toString rows.length) then (st, [])
+          else fail st "par" s!"par_query views={viewsS} filter={filterS} spec-rows=[{want}] real-rows=[{(fieldOf toks "rows").getD ""}]"
+        match eS.toNat? with
+        | some e =>
+          let cs := (vs.filter View.isMut).filterMap View.comp?
+          let expect := (s.ents.filter (fun en => specMatches vs f (Spec.maskOf st.n en.vals))).flatMap
+            (fun en => en.vals.filter (fun v => cs.contains v.ty))
+          let (st, o2) := checkDrops st expect
+          (st.setS wi (some (Spec.queryWrite st.n s vs f e)), o1 ++ o2)
+        | none => (st, o1)
+      | _, _, _ => (st, [])
     | "q", [viewsS, filterS, _mode, eS] =>
       match st.getS wi, parseViews viewsS, parseFilter filterS with
       | some s, some vs, some f =>
@@ -612,6 +672,59 @@ def stepLine (st : St) (line : String) : St × List String :=
       let exp := s!"r {r}" :: dumpsOf st'
       let emitted := if st.emit then (line :: exp) else []
       ({ st' with expected := exp, pending := some (wi, name, args) }, out ++ emitted)
+  | ["ctor", which, tysS, verdict] =>
+    -- C18: a constructor on a registry given as a list of type tags
+    let tys := (parseNats tysS).getD []
+    let fn := if which == "new" then "mod::new" else if which == "with_resources" then "mod::with_resources"
+              else if which == "default" then "impl_default::default" else "impl_serde::visit_seq"
+    -- does the constructor reach the asserting function through the extracted call graph?
+    let rec reaches (fuel : Nat) (f : String) : Bool :=
+      match fuel with
+      | 0 => false
+      | fuel + 1 =>
+        (Generated.worldAsserts.lookup f).getD false ||
+        ((Generated.worldCalls.lookup f).getD []).any (fun c => reaches fuel ("mod::" ++ c))
+    let modelPanics := reaches 5 fn && !(assertNoDup Generated.assertNoDupShape tys [])
+    let realPanics := verdict == "panicked"
+    let st := { st with ops := st.ops + 1 }
+    let o1 := if modelPanics == realPanics then [] else [s!"M {st.lineNo} case={st.caseName} model=[ctor {which} {tysS} {if modelPanics then "panicked" else "ok"}] real=[ctor {which} {tysS} {verdict}]"]
+    let o2 := if !realPanics && !tys.Nodup then [s!"X {st.lineNo} case={st.caseName} oracle=ctor a World was obtained through {which} for a registry with a repeated component type [{tysS}]"]
+              else if realPanics && tys.Nodup then [s!"X {st.lineNo} case={st.caseName} oracle=ctor {which} panicked for the duplicate-free registry [{tysS}]"] else []
+    ({ st with mismatches := st.mismatches + o1.length, oracleFails := st.oracleFails + o2.length }, o1 ++ o2)
+  | "prog" :: rest =>
+    -- C14: `prog <program token…> | <compiled|rejected> <error codes>`
+    let tokS := String.intercalate " " (rest.takeWhile (· ≠ "|"))
+    let verdict := (rest.dropWhile (· ≠ "|")).getD 1 ""
+    let st := { st with ops := st.ops + 1 }
+    match findProg tokS with
+    | none => ({ st with mismatches := st.mismatches + 1 }, [s!"M {st.lineNo} case={st.caseName} model=[prog {tokS} unknown-program] real=[prog {tokS} {verdict}]"])
+    | some p =>
+      let compiled := verdict == "compiled"
+      let o1 := if accepts p == compiled then [] else
+        [s!"M {st.lineNo} case={st.caseName} model=[prog {tokS} {if accepts p then "compiled" else "rejected"}] real=[prog {tokS} {verdict}]"]
+      let o2 := if compiled && !Sound p then
+        [s!"X {st.lineNo} case={st.caseName} oracle=program rustc accepts [{tokS}] which the property forbids (conflicting access, or a !Send/!Sync value reachable from another thread)"] else []
+      ({ st with mismatches := st.mismatches + o1.length, oracleFails := st.oracleFails + o2.length }, o1 ++ o2)
+  | "fault" :: seedS :: op :: cb :: kS :: outcome =>
+    -- C17: one fault point executed on the real crate in a child process
+    let st := { st with ops := st.ops + 1 }
+    let out := String.intercalate " " outcome
+    let bad := !(outcome.getD 1 "" == "ok") || outcome.length < 2
+    if !bad then (st, []) else
+    let safe := faultSafe op cb
+    let x := s!"X {st.lineNo} case={st.caseName} oracle=fault op={op} callback={cb} k={kS} seed={seedS} outcome=[{out}]"
+    let m := if safe then [s!"M {st.lineNo} case={st.caseName} model=[fault {op} {cb} safe] real=[fault {op} {cb} k={kS} {out}]"] else []
+    ({ st with oracleFails := st.oracleFails + 1, mismatches := st.mismatches + m.length }, m ++ [x])
+  | ["batch", lensS, verdict] =>
+    let lens := (parseNats lensS).getD []
+    let modelPanics := (Generated.batchShape.getD 0 false) && !(checkLen Generated.batchShape lens)
+    let realPanics := verdict == "panicked"
+    let ragged := lens.any (fun l => l != lens.headD 0)
+    let st := { st with ops := st.ops + 1 }
+    let o1 := if modelPanics == realPanics then [] else [s!"M {st.lineNo} case={st.caseName} model=[batch {lensS} {if modelPanics then "panicked" else "ok"}] real=[batch {lensS} {verdict}]"]
+    let o2 := if !realPanics && ragged then [s!"X {st.lineNo} case={st.caseName} oracle=ctor Batch::new accepted columns of different lengths [{lensS}]"]
+              else if realPanics && !ragged then [s!"X {st.lineNo} case={st.caseName} oracle=ctor Batch::new panicked on columns of equal length [{lensS}]"] else []
+    ({ st with mismatches := st.mismatches + o1.length, oracleFails := st.oracleFails + o2.length }, o1 ++ o2)
   | tag :: _ =>
     if tag == "r" || tag == "d" then
       -- a line from the implementation: compare with the model's expectation
